@@ -3,7 +3,7 @@
    (+ VM/SortLemmas.v), concrete witnesses in VM/Witness.v and VM/NonVac.v. *)
 From Coq Require Import String List.
 From NV Require Import Base.Show VM.Value VM.Ast VM.Bytecode VM.Compile VM.Machine VM.RefSem VM.Exec
-     VM.Proofs VM.ProofsErr VM.StaticBinding VM.ProofsStatic VM.Witness VM.NonVac.
+     VM.Proofs VM.ProofsErr VM.RefMono VM.Witness VM.NonVac.
 
 (* MAIN THEOREM — whole programs.  For every instance of the primitive operations,
    every program p of the modelled language (let with shadowing, fn with parameters and
@@ -11,44 +11,36 @@ From NV Require Import Base.Show VM.Value VM.Ast VM.Bytecode VM.Compile VM.Machi
    literals, field access, lists, strings with interpolation, conditionals, boolean
    logic, comparisons, print/assert procedures) and every fuel n:
    if the compiler model neither panics nor overflows a u16 on p (compile_ok) and the
-   reference semantics — static binding, never calling a function value whose name has
-   been rebound (run_checked) — yields print output `out` and final value `v`, then the
-   stack machine running the compiled code halts with exactly `out` and `v`. *)
+   reference semantics of the language (run_ref: static binding throughout) yields print
+   output `out` and final value `v`, then the stack machine running the compiled code
+   halts with exactly `out` and `v`.  (Since the repair of finding C09-funref-rebound —
+   function values carry the index of their chunk — no hypothesis about redefinitions
+   is needed any more.) *)
 Theorem C09_compile_correct :
   forall (Q : Type) (O : ops Q) (p : program Q) (n : nat) out v,
     compile_ok (compile (procs O) p) = true ->
-    run_checked O n p = Ok (out, v) ->
+    run_ref O n p = Ok (out, v) ->
     exists m, Machine.run O (compile (procs O) p) m = Ok (out, v).
 Proof. exact @compile_correct. Qed.
 Print Assumptions C09_compile_correct.
 
-(* The same for the PLAIN static reference semantics (no stale check), under syntactic
-   hypotheses: the program defines no function name twice, and foreign functions do not
-   invent function values (proved for the instance used by the tie: zffi_parametric).
-   Together with C09_funref_refuted: redefinition is the only way to break the property. *)
-Theorem C09_compile_correct_static :
-  forall (Q : Type) (O : ops Q) (p : program Q) (n : nat) out v,
-    ffi_parametric O -> NoDup (fn_names p) ->
-    compile_ok (compile (procs O) p) = true ->
-    run_static O n p = Ok (out, v) ->
-    exists m, Machine.run O (compile (procs O) p) m = Ok (out, v).
-Proof. exact @compile_correct_static. Qed.
-Print Assumptions C09_compile_correct_static.
+(* "The value given by the language's evaluation rules" is well defined: the outcome of
+   the reference semantics does not depend on the fuel once it is definite (a value, a
+   runtime error or Wrong). *)
+Theorem C09_reference_deterministic :
+  forall (Q : Type) (O : ops Q) lits (n n' : nat) (p : program Q) r r',
+    RefSem.run O lits n p = r -> RefSem.run O lits n' p = r' -> r <> Fuel -> r' <> Fuel -> r = r'.
+Proof. exact @run_unique. Qed.
+Print Assumptions C09_reference_deterministic.
 
-Example C09_static_hypotheses_satisfiable : ffi_parametric zops /\ NoDup (fn_names demo).
-Proof.
-  split; [exact zffi_parametric|].
-  vm_compute. repeat constructor; simpl; intuition discriminate.
-Qed.
-
-(* PARTIAL no-stuck: on every program whose checked reference evaluation succeeds the
+(* PARTIAL no-stuck: on every program whose reference evaluation succeeds the
    machine never panics and never raises an error, whatever fuel it is given.  (Not
    proved: absence of panics for ALL well-typed programs — that needs a model of the
    type checker — and for programs whose reference evaluation ends in a runtime error.) *)
 Theorem C09_no_stuck_partial :
   forall (Q : Type) (O : ops Q) (p : program Q) (n : nat) out v,
     compile_ok (compile (procs O) p) = true ->
-    run_checked O n p = Ok (out, v) ->
+    run_ref O n p = Ok (out, v) ->
     forall m, Machine.run O (compile (procs O) p) m = Fuel
               \/ Machine.run O (compile (procs O) p) m = Ok (out, v).
 Proof. exact @no_panic_after_ok. Qed.
@@ -60,14 +52,14 @@ Theorem C09_no_stuck_on_error_partial :
   forall (Q : Type) (O : ops Q) (p : program Q) (n : nat) e,
     (forall spec v, exists s, fmt_spec O spec v = Ok s) ->
     compile_ok (compile (procs O) p) = true ->
-    run_checked_nostruct O n p = Err e ->
+    run_ref_nostruct O n p = Err e ->
     forall m, Machine.run O (compile (procs O) p) m = Fuel
               \/ Machine.run O (compile (procs O) p) m = Err e.
 Proof. exact @no_panic_after_err. Qed.
 Print Assumptions C09_no_stuck_on_error_partial.
 
 (* PARTIAL errors: a runtime error of the reference semantics is the machine's error, same
-   kind.  Partial because (1) struct LITERALS are excluded (run_checked_nostruct evaluates
+   kind.  Partial because (1) struct LITERALS are excluded (run_ref_nostruct evaluates
    them to Wrong): the implementation evaluates the fields in reverse definition order, so
    with two failing fields — or a failing and a diverging one — it reports a different
    outcome than source order would; (2) format specifiers are assumed total, because
@@ -76,7 +68,7 @@ Theorem C09_errors_partial :
   forall (Q : Type) (O : ops Q) (p : program Q) (n : nat) e,
     (forall spec v, exists s, fmt_spec O spec v = Ok s) ->
     compile_ok (compile (procs O) p) = true ->
-    run_checked_nostruct O n p = Err e ->
+    run_ref_nostruct O n p = Err e ->
     exists m, Machine.run O (compile (procs O) p) m = Err e.
 Proof. exact @compile_errors. Qed.
 Print Assumptions C09_errors_partial.
@@ -86,42 +78,42 @@ Print Assumptions C09_errors_partial.
    yields v the machine pushes exactly v.  RelW / cenv_rel: the invariant that
    C09_compile_correct establishes for compiled programs. *)
 Theorem C09_expr_simulation :
-  forall (Q : Type) (O : ops Q) (stale : string -> nat -> bool) lits (C : compiled) (W : world),
-    RelW O stale C W ->
+  forall (Q : Type) (O : ops Q) lits (C : compiled) (W : world),
+    RelW O C W ->
     forall n vg vn vf L (e : expr Q) v,
-      eval O stale lits n W vg vn vf L e = Ok v ->
+      eval O lits n W vg vn vf L e = Ok v ->
       forall ce fi fp frs, cenv_rel O C W ce vg vn vf ->
         comp_ok O C W ce L fi fp frs (cexpr ce e) [v].
-Proof. intros Q O stale lits C W HW n. exact (expr_correct O stale lits C W HW n). Qed.
+Proof. intros Q O lits C W HW n. exact (expr_correct O lits C W HW n). Qed.
 Print Assumptions C09_expr_simulation.
 
 (* ---- the named clauses of the property (instances of the simulation) *)
 Theorem C09_list_order :
-  forall (Q : Type) (O : ops Q) stale (C : compiled) (W : world), RelW O stale C W ->
+  forall (Q : Type) (O : ops Q) (C : compiled) (W : world), RelW O C W ->
     forall n vg vn vf L (es : list (expr Q)) vs ce fi fp frs,
-      evals (eval O stale (true, true) n W vg vn vf L) es = Ok vs ->
+      evals (eval O (true, true) n W vg vn vf L) es = Ok vs ->
       cenv_rel O C W ce vg vn vf ->
       comp_ok O C W ce L fi fp frs (cexpr ce (EList es)) [VList vs].
 Proof. exact @list_order. Qed.
 Print Assumptions C09_list_order.
 
 Theorem C09_arg_order :
-  forall (Q : Type) (O : ops Q) stale (C : compiled) (W : world), RelW O stale C W ->
+  forall (Q : Type) (O : ops Q) (C : compiled) (W : world), RelW O C W ->
     forall n vg vn vf L (args : list (expr Q)) vs ce fi fp frs,
-      evals (eval O stale (true, true) n W vg vn vf L) args = Ok vs ->
+      evals (eval O (true, true) n W vg vn vf L) args = Ok vs ->
       cenv_rel O C W ce vg vn vf ->
       comp_ok O C W ce L fi fp frs (cseq (map (fun a => cexpr ce a) args)) (rev vs).
 Proof. exact @arg_order. Qed.
 Print Assumptions C09_arg_order.
 
 Theorem C09_string_order :
-  forall (Q : Type) (O : ops Q) stale (C : compiled) (W : world), RelW O stale C W ->
+  forall (Q : Type) (O : ops Q) (C : compiled) (W : world), RelW O C W ->
     forall n vg vn vf L (parts : list (string + (expr Q * option string))) strs ce fi fp frs,
       evals (fun p : string + (expr Q * option string) =>
                match p with
                | inl s => Ok s
-               | inr (a, None) => bind (eval O stale (true, true) n W vg vn vf L a) (fun v => Ok (to_str O v))
-               | inr (a, Some spec) => bind (eval O stale (true, true) n W vg vn vf L a) (fun v => fmt_spec O spec v)
+               | inr (a, None) => bind (eval O (true, true) n W vg vn vf L a) (fun v => Ok (to_str O v))
+               | inr (a, Some spec) => bind (eval O (true, true) n W vg vn vf L a) (fun v => fmt_spec O spec v)
                end) parts = Ok strs ->
       cenv_rel O C W ce vg vn vf ->
       comp_ok O C W ce L fi fp frs (cexpr ce (EString parts)) [VStr (String.concat EmptyString strs)].
@@ -129,12 +121,12 @@ Proof. exact @string_order. Qed.
 Print Assumptions C09_string_order.
 
 Theorem C09_field_order :
-  forall (Q : Type) (O : ops Q) stale (C : compiled) (W : world), RelW O stale C W ->
+  forall (Q : Type) (O : ops Q) (C : compiled) (W : world), RelW O C W ->
     forall n vg vn vf L sname sfields (fields : list (string * expr Q)) fvs vals ce fi fp frs,
       assoc sname (w_structs W) = Some sfields ->
       nodupb sfields = true -> length fields = length sfields ->
       evals (fun nf : string * expr Q =>
-               bind (eval O stale (true, true) n W vg vn vf L (snd nf)) (fun v => Ok (fst nf, v))) fields = Ok fvs ->
+               bind (eval O (true, true) n W vg vn vf L (snd nf)) (fun v => Ok (fst nf, v))) fields = Ok fvs ->
       collect sfields fvs = Some vals ->
       cenv_rel O C W ce vg vn vf ->
       comp_ok O C W ce L fi fp frs (cexpr ce (EStruct sname sfields fields)) [VStruct sname sfields vals].
@@ -142,7 +134,7 @@ Proof. exact @field_order. Qed.
 Print Assumptions C09_field_order.
 
 Theorem C09_innermost_binding :
-  forall (Q : Type) (O : ops Q) stale (C : compiled) (W : world), RelW O stale C W ->
+  forall (Q : Type) (O : ops Q) (C : compiled) (W : world), RelW O C W ->
     (forall vg vn vf L x i (v : value Q) ce fi fp frs,
         find_last x L = Some (i, v) -> cenv_rel O C W ce vg vn vf ->
         comp_ok O C W ce L fi fp frs (cexpr ce (EIdent x)) [v])
@@ -151,40 +143,43 @@ Theorem C09_innermost_binding :
         find_last x L = None -> find_last x (firstn vg (w_globals W)) = Some (i, v) ->
         cenv_rel O C W ce vg vn vf ->
         comp_ok O C W ce L fi fp frs (cexpr ce (EIdent x)) [v]).
-Proof. intros Q O stale C W HW. split; [exact (innermost_local O stale C W HW) | exact (innermost_global O stale C W HW)]. Qed.
+Proof. intros Q O C W HW. split; [exact (innermost_local O C W HW) | exact (innermost_global O C W HW)]. Qed.
 Print Assumptions C09_innermost_binding.
 
-(* REFUTED clause (open finding C09-funref-rebound): CallCallable resolves
-   FunctionReference::Normal by NAME at call time, so a function value taken before a
-   redefinition calls the new body.  Source semantics: 2; the faithful machine: 100.
-   This is why C09_compile_correct is stated for run_checked. *)
-Theorem C09_funref_refuted :
-  exists (p : program Z) (n m : nat) (v v' : value Z),
-    compile_ok (compile (procs zops) p) = true
-    /\ run_static zops n p = Ok ([], Some v)
-    /\ Machine.run zops (compile (procs zops) p) m = Ok ([], Some v')
-    /\ v <> v'
-    /\ run_checked zops n p = Stale.
-Proof.
-  exists funref_witness, 20, 20, (VQ 2%Z), (VQ 100%Z).
-  destruct funref_witness_refutes as (H1 & H2 & H3 & H4).
-  repeat split; try assumption. discriminate.
-Qed.
-Print Assumptions C09_funref_refuted.
+(* REGRESSION EXAMPLE for the repaired finding C09-funref-rebound (was C09_funref_refuted:
+   static semantics 2, machine 100): a function value taken before a redefinition keeps
+   calling the function it was created for — reference and machine agree on 2. *)
+Example C09_funref_regression :
+  compile_ok (compile (procs zops) funref_witness) = true
+  /\ run_ref zops 20 funref_witness = Ok ([], Some (VQ 2%Z))
+  /\ Machine.run zops (compile (procs zops) funref_witness) 20 = Ok ([], Some (VQ 2%Z)).
+Proof. exact funref_witness_agrees. Qed.
+
+(* REGRESSION EXAMPLE for the repaired finding C09-jump-offset-wrap.  The hypothesis
+   compile_ok of C09_compile_correct is necessary, and the compiler now enforces it:
+   for a conditional whose then-branch is 65550 bytes long the reference value is 7, the
+   model compiler reports CodeTooLarge (kernel-computed), as the repaired implementation
+   does — before the repair the offsets were truncated to 16 bits and the machine
+   mis-jumped (implementation: panic / no value). *)
+Example C09_wrap_regression :
+  run_ref zops 10 wrap_witness = Ok ([], Some (VQ 7%Z))
+  /\ code_too_large (compile (procs zops) wrap_witness) = true
+  /\ compile_ok (compile (procs zops) wrap_witness) = false.
+Proof. exact (conj wrap_witness_reference wrap_witness_rejected). Qed.
 
 (* Non-vacuity of the main theorem: its hypotheses hold for a program with shadowing, a
    where-local, recursion through a function value, a struct literal with reordered
    fields, a list, string interpolation and print — and the conclusion is the real run. *)
 Example C09_nonvacuous :
   compile_ok (compile (procs zops) demo) = true
-  /\ run_checked zops 60 demo = Ok (["v=[10, 12]!"%string], Some (VQ 12%Z))
+  /\ run_ref zops 60 demo = Ok (["v=[10, 12]!"%string], Some (VQ 12%Z))
   /\ Machine.run zops (compile (procs zops) demo) 400 = Ok (["v=[10, 12]!"%string], Some (VQ 12%Z)).
 Proof. exact demo_runs. Qed.
 
 (* Non-vacuity of the simulation's invariant: RelW and cenv_rel hold for a concrete
    compiled program with a global and a recursive function with a where-local. *)
 Example C09_hypotheses_satisfiable :
-  RelW zops (stale_in nv_prog) nv_C nv_W /\ cenv_rel zops nv_C nv_W nv_ce 1 1 0
+  RelW zops nv_C nv_W /\ cenv_rel zops nv_C nv_W nv_ce 1 1 0
   /\ exists m, run_from zops nv_C m
         {| m_frames := [F 0 3 0]; m_stack := [VQ 2%Z]; m_last := None; m_out := []; m_res := None |}
       = Ok ([], Some (VQ 14%Z)).
